@@ -42,7 +42,8 @@ class C17(Base):
             "start/poll/fire incl. spurious polls, polls of idle tasks, restarts at other depths, fair-executor "
             "schedules (only woken tasks are polled; source fires when nothing is runnable); sync: sequences of "
             "format_*_sync requests of different depths over the generator's iterator. thorough adds ALL schedules of "
-            "length 9 over {poll 0, poll 1, fire} for 2 consumers x 3 bundles x 16 ready/pending patterns x 3 depth pairs. "
+            "length 10 (depths 3,3) and 9 (depths 2,4 / 4,1) over {poll 0, poll 1, fire} for 2 consumers x 3 bundles x all 16 "
+            "ready/pending patterns (quick: length 7, 4 patterns). "
             "Non-trivial = async case in which a request was Pending and a wake-up happened, or a sync case with two "
             "requests of different depth; distinct = distinct case line.")
     EXPLANATION = ("Theorems (all label sequences, induction): cached items ++ unread script = source order (prefix, "
@@ -175,26 +176,26 @@ class C17(Base):
 
     def generate(self, rng, tier):
         quick = tier == "quick"
-        for _ in range(4000 if quick else 200000):
+        for _ in range(12000 if quick else 200000):
             yield self.gen_async(rng, 30 if rng.random() < 0.9 else 90)
-        for _ in range(1500 if quick else 60000):
+        for _ in range(4000 if quick else 60000):
             yield self.gen_fair(rng, 60)
-        for _ in range(1000 if quick else 40000):
+        for _ in range(3000 if quick else 40000):
             yield self.gen_sync(rng, 10)
         # exhaustive family: 2 consumers, 3 bundles, all schedules of a fixed length (observations of every prefix
         # are part of the observation of the full schedule)
         alphabet = ["poll:0", "poll:1", "fire"]
         if quick:
-            ln, patterns, depths = 6, [(0, 1, 0, 1), (1, 1, 1, 0)], [(3, 3)]
+            fams = [(7, [(0, 1, 0, 1), (1, 1, 1, 0), (1, 0, 1, 1), (0, 0, 1, 0)], [(3, 3)])]
         else:
-            ln = 9
-            patterns = list(itertools.product([0, 1], repeat=4))
-            depths = [(3, 3), (2, 4), (4, 1)]
-        for pat in patterns:
-            for (d0, d1) in depths:
-                head = "cache %s;start:0:%d:v;start:1:%d:v;" % (header("a", 2, list(pat[:3]), pat[3]), d0, d1)
-                for seq in itertools.product(alphabet, repeat=ln):
-                    yield head + ";".join(seq)
+            allpat = list(itertools.product([0, 1], repeat=4))
+            fams = [(10, allpat, [(3, 3)]), (9, allpat, [(2, 4), (4, 1)]), (8, [(2, 0, 1, 1), (1, 2, 0, 2)], [(3, 3)])]
+        for ln, patterns, depths in fams:
+            for pat in patterns:
+                for (d0, d1) in depths:
+                    head = "cache %s;start:0:%d:v;start:1:%d:v;" % (header("a", 2, list(pat[:3]), pat[3]), d0, d1)
+                    for seq in itertools.product(alphabet, repeat=ln):
+                        yield head + ";".join(seq)
         if not quick:
             # long schedules, many items
             for _ in range(2000):
